@@ -165,7 +165,7 @@ def structural_ignore(repo):
         src = open(os.path.join(repo, rel), encoding='utf-8').read()
         tree = ast.parse(src)
     except (OSError, SyntaxError) as e:
-        return [{'id': 'ignore-folders', 'kind': 'post', 'ok': None, 'label': 'cannot parse %s: %s' % (rel, e)}]
+        return [{'id': 'ignore-folders', 'definite': True, 'kind': 'post', 'ok': None, 'label': 'cannot parse %s: %s' % (rel, e)}]
     val = None
     for s in tree.body:
         if isinstance(s, ast.Assign) and isinstance(s.targets[0], ast.Name) and s.targets[0].id == '_IGNORE_FOLDERS':
@@ -174,7 +174,7 @@ def structural_ignore(repo):
             except Exception:
                 val = None
     ok = val is not None and all(n in val for n in IGNORED_BY_PROPERTY)
-    out.append({'id': 'ignore-folders', 'kind': 'post', 'ok': ok,
+    out.append({'id': 'ignore-folders', 'definite': True, 'kind': 'post', 'ok': ok,
                 'label': 'the ignored folder names contain venv, .venv, .tox, .mypy_cache, __pycache__',
                 'detail': repr(val)})
     from pyvc.verify import find_function
